@@ -1,6 +1,7 @@
 import Qentem.Model.NumToStr
 import Qentem.Model.FmtSpec
 import Qentem.Proofs.NumToStrRound
+import Qentem.Proofs.NumToStrParse
 /-! C11 — every finite double survives format(17 digits) then parse, bit for bit; every float
 survives 9 digits.
 
@@ -88,6 +89,34 @@ theorem roundtrip_small_int (bits j : Nat)
   obtain ⟨den, hden, hdec⟩ := Qentem.Proofs.NumToStr.decode64_int h
   exact ⟨_, _, _, den, hden, Qentem.Proofs.NumToStr.format17_small_int bits j h hsmall,
     Qentem.Proofs.NumToStr.readDecimal_signed_D _ _, hdec⟩
+
+/-- `roundtrip17_integers_parser`: the round trip **through the real parser model** (`StrToNum.strToNum`, C09)
+for every double holding an integer `n` with `0 < n < 2^53`, either sign: `NumberToString(17)` prints a text `t`
+on which `stringToNumber` returns kind Natural with value exactly `n` (kind Integer with the two's-complement
+pattern of `-n` for negative values) and consumes all of `t`; `n·den/den` is the value the bit pattern decodes
+to.  The library's `double(n)` of an integer below 2^53 is exact, so the original bits come back. -/
+theorem roundtrip17_integers_parser (bits j : Nat)
+    (h : Qentem.Proofs.NumToStr.IntValued64 ((bits / 2 ^ 52) % 2 ^ 11) (bits % 2 ^ 52) j)
+    (hsmall : (bits / 2 ^ 52) % 2 ^ 11 - 1023 ≤ 52) :
+    ∃ t n den, 0 < den ∧ format17 bits = .ok t ∧
+      FmtSpec.decode64 bits = .fin (decide (bits / 2 ^ 63 % 2 = 1)) (n * den) den ∧
+      StrToNum.strToNum t 0 t.length =
+        some (if bits / 2 ^ 63 % 2 = 1 then ⟨.integer, 2 ^ 64 - n, t.length⟩ else ⟨.natural, n, t.length⟩) :=
+  Qentem.Proofs.NumToStr.roundtrip17_int_parser bits j h hsmall
+
+/-- **The remaining gap of `RoundTrip17`, stated precisely.**  With `Props.C10.digits_exact_or_sticky` the
+17-digit text is a correctly rounded decimal as soon as the string-level formatter is (`FormatEqSpec`, Default
+format, precision 17 — proved for integer-valued doubles, open for values with a fraction).  What is then
+still needed:
+* `Identifies17` — a correctly rounded 17-significant-digit decimal of a binary64 value rounds back to it
+  (the classical `10^16 > 2^53` argument; a theorem about `FmtSpec` alone, not about the code);
+* `ParsesExactly17` — the parser returns the nearest double on those numerals; C09 proves exactness for the
+  integer shape only (used above), its real path is proved safe and well-formed but its rounding
+  (`real_within_one_ulp`) is open, and one ulp would not be enough for the round trip anyway. -/
+def RoundTrip17Gap (parse : List Nat → Option Nat) : Prop := Identifies17 ∧ ParsesExactly17 parse
+
+theorem roundtrip17_of_gap (parse : List Nat → Option Nat) (h : RoundTrip17Gap parse) : RoundTrip17 parse :=
+  roundtrip17_of_halves parse h.1 h.2
 
 /-- non-vacuity: 3.0 and -(2^53 - 1) satisfy the hypotheses -/
 example : Qentem.Proofs.NumToStr.IntValued64 ((0x4008000000000000 / 2 ^ 52) % 2 ^ 11) (0x4008000000000000 % 2 ^ 52) 51 := by
